@@ -96,9 +96,13 @@ def run_sweep(corpus, scratch: Path, pool, kf, hist: Counter, shrink_budget=120)
     srcs = [c[2] for c in corpus]
     orig = c01_sweep.exec_programs(srcs, scratch)
     common.log(f"[c01] executed {len(srcs)} originals {time.time() - t0:.0f}s")
+    orig2 = c01_sweep.exec_programs(srcs, scratch)           # determinism filter: same behaviour twice
     live = []
-    for c, r in zip(corpus, orig):
+    for c, r, r2 in zip(corpus, orig, orig2):
         b = c01_sweep.behaviour(r)
+        if c01_sweep.NONDET.search(c[2]) or c01_sweep.behaviour(r2) != b:
+            hist[f"original:{c[1]}:nondeterministic (outside the domain)"] += 1
+            continue
         hist[f"original:{c[1]}:{r['status']}"] += 1
         if c01_sweep.observable(b):
             live.append((c, b))
